@@ -127,6 +127,19 @@ def _merge_minmax(vals, op):
     return E._wrap(r)
 
 
+def _merged_median(vals):
+    "median as a merged term: compare-exchange sorting network, then the middle element(s)"
+    v = [T(x) for x in vals]
+    n = len(v)
+    for i in range(n):
+        for j in range(n - 1 - i):
+            a, b = v[j], v[j + 1]
+            v[j], v[j + 1] = z3.If(a <= b, a, b), z3.If(a <= b, b, a)
+    if n % 2:
+        return E._wrap(v[n // 2])
+    return E._wrap((v[n // 2 - 1] + v[n // 2]) / 2)
+
+
 class NumpyProxy:
     def __init__(self):
         self.used = set()
@@ -179,8 +192,18 @@ class NumpyProxy:
     def var(self, a, *args, **kw):
         return _np.var(_obj(a), *args, **kw)
 
-    def median(self, a, *args, **kw):
-        return _np.median(_obj(a), *args, **kw)
+    def median(self, a, axis=None, **kw):
+        arr = _obj(a)
+        if arr.dtype != object or kw or not is_symarr(arr):
+            return _np.median(arr, axis=axis, **kw)
+        self._ov("median")
+        if axis is None:
+            return _merged_median(list(arr.ravel()))
+        moved = _np.moveaxis(arr, axis, -1)
+        out = _np.empty(moved.shape[:-1], dtype=object)
+        for idx in _np.ndindex(*out.shape):
+            out[idx] = _merged_median(list(moved[idx]))
+        return out
 
     def average(self, a, axis=None, weights=None, **kw):
         if weights is not None:
